@@ -50,6 +50,39 @@ LOG_NAMES = {"log", "logger", "logging"}
 MAX_UNROLL = 256
 
 
+_str_cache = {}
+
+
+def _has_strings(t):
+    """does the term mention the sequence theory?"""
+    k = t.get_id()
+    r = _str_cache.get(k)
+    if r is not None:
+        return r
+    seen = set()
+    todo = [t]
+    r = False
+    while todo:
+        x = todo.pop()
+        i = x.get_id()
+        if i in seen:
+            continue
+        seen.add(i)
+        if z3.is_quantifier(x):
+            todo.append(x.body())
+            continue
+        srt = x.sort()
+        if srt.kind() in (z3.Z3_SEQ_SORT, z3.Z3_RE_SORT):
+            r = True
+            break
+        if z3.is_app(x):
+            todo.extend(x.children())
+    if len(_str_cache) > 200000:
+        _str_cache.clear()
+    _str_cache[k] = r
+    return r
+
+
 def _builtin_exc(name):
     cls = getattr(_py_builtins, name, None)
     if isinstance(cls, type) and issubclass(cls, BaseException):
@@ -105,6 +138,7 @@ class Interp:
         self.solver = z3.Solver()
         self.solver.set("timeout", 400)
         self.fresh_n = 0
+        self.subst = []
         self.inputs = {}        # name -> z3 const (declared harness inputs, for models)
         self.vcs = []           # (name, pc snapshot, goal)
         self.trivial = []       # names discharged by evaluation
@@ -123,31 +157,54 @@ class Interp:
         return z3.Const(f"{prefix}!{self.fresh_n}", sort)
 
     def feasible(self, cond):
+        # the path solver only holds string-free constraints (z3's sequence solver would
+        # time out on every branch); ignoring the others over-approximates feasibility,
+        # which is sound: an infeasible path only yields obligations with an unsat pc
+        if _has_strings(cond):
+            return True
         r = self.solver.check(cond)
         return r != z3.unsat
+
+    def _add_pc(self, c):
+        self.pc.append(c)
+        if not _has_strings(c):
+            self.solver.add(c)
+        elif z3.is_eq(c):
+            # remember `const == literal` so later string conditions simplify syntactically
+            a, b = c.children()
+            if z3.is_string_value(a):
+                a, b = b, a
+            if z3.is_string_value(b) and z3.is_const(a) and a.decl().kind() == z3.Z3_OP_UNINTERPRETED:
+                self.subst.append((a, b))
+
+    def simp(self, cond):
+        if self.subst and _has_strings(cond):
+            cond = z3.substitute(cond, *self.subst)
+        return z3.simplify(cond)
 
     def assume(self, cond):
         if cond is True:
             return
         if cond is False:
             raise PathCut()
-        cond = z3.simplify(cond)
+        orig = cond
+        cond = self.simp(cond)
         if z3.is_true(cond):
             return
         if z3.is_false(cond):
             raise PathCut()
-        self.pc.append(cond)
-        self.solver.add(cond)
+        self._add_pc(z3.simplify(orig))
 
     def decide(self, cond):
         """Fork on a z3 Bool. Returns the python bool taken on this path."""
         if isinstance(cond, bool):
             return cond
-        cond = z3.simplify(cond)
-        if z3.is_true(cond):
+        scond = self.simp(cond)
+        if z3.is_true(scond):
             return True
-        if z3.is_false(cond):
+        if z3.is_false(scond):
             return False
+        cond = z3.simplify(cond)
         if self.pos < len(self.script):
             d = self.script[self.pos]
         else:
@@ -165,8 +222,7 @@ class Interp:
             self.script.append(d)
         self.pos += 1
         c = cond if d else z3.Not(cond)
-        self.pc.append(c)
-        self.solver.add(c)
+        self._add_pc(c)
         return d
 
     def choose(self, n, label="choice"):
@@ -194,10 +250,10 @@ class Interp:
                 self.oblige(f"{name}.c{k}", g, meta)
             self.ex.ob_names[name] -= 1
             return
-        goal = z3.simplify(goal)
-        if z3.is_true(goal):
+        if z3.is_true(self.simp(goal)):
             self.trivial.append(name)
             return
+        goal = z3.simplify(goal)
         self.vcs.append((name, list(self.pc), goal, meta))
         self.assume(goal)
 
@@ -335,7 +391,11 @@ class Interp:
             raise Undecided(f"float operator {op.__class__.__name__}")
         if ka == "str" and kb == "str":
             if isinstance(op, ast.Add):
-                return SStr(z3.Concat(z3_of(a), z3_of(b)))
+                t = z3.Concat(z3_of(a), z3_of(b))
+                from . import models as _m
+                if _m._alphabets:
+                    _m.alphabet_facts_derived(self, t, [z3_of(a), z3_of(b)])
+                return SStr(t)
             if isinstance(op, ast.Mod):
                 return self.fresh_str("fmt")
         if ka == "str" and isinstance(op, ast.Mod):
@@ -724,6 +784,8 @@ class Interp:
         if isinstance(obj, PObj):
             if name in obj.fields:
                 return obj.fields[name]
+            if name == "__dict__":
+                return obj.fields
             hook = self.ex.getattr_hooks.get(obj.clsname())
             if hook:
                 r = hook(self, obj, name)
@@ -784,6 +846,11 @@ class Interp:
 
     def setattr(self, obj, name, val):
         if isinstance(obj, PObj):
+            if name == "__dict__":
+                if not isinstance(val, dict):
+                    raise Undecided("__dict__ assigned a non-dict")
+                obj.fields = val
+                return
             obj.fields[name] = val
             return
         if isinstance(obj, SRef):
